@@ -17,7 +17,9 @@ RULE = ('edit histories (enter / overwrite / bare-number delete / DELETE a-b, a-
         'reaching past 65529, refused only at a later line; after an accepted RENUM the reference is re-read and the '
         'history continues); refused-then-edit (every kind of refused command: RENUM overflow/overlap/step 0, DELETE and '
         'bare number of missing lines, LOAD/MERGE of a missing file, EDIT/AUTO/syntax errors, Out of memory, each '
-        'followed by edits aimed at the top and the middle of the program)')
+        'followed by edits aimed at the top and the middle of the program); merge (MERGE / LOAD of text files written by '
+        'the harness: lines in any order, repeats, number-only lines, blank and blank-only lines, CR/LF/CRLF, with or '
+        'without 1A or final line end; reference = typing the lines in file order)')
 EXPLANATION = ('theorems (PcbV.Props.C13): representation invariant Inv (bytes = serialisation of a strictly sorted record '
                'list, dict = its offset table, memory bound) holds initially and is preserved by store/delete/new for '
                'well-formed bodies; Inv gives dict = rescan(bytes), increasing offsets, correct next-address fields, '
@@ -147,6 +149,51 @@ def probe_line(rng, nums, kind):
     return nums[-1]
 
 
+FILE_SEPARATORS = [b'\r\n', b'\r\n', b'\r', b'\n', b'\r\n\r\n', b'\r\r', b'\n\n', b'\r\n   \r\n', b'\r\n\n',
+                   b'\r\n\r\n\r\n', b'\r\n \r\n', b'\r\n\t\r\n']
+FILE_ENDINGS = [b'\r\n\x1a', b'\r\n', b'', b'\x1a', b'\r\x1a', b'\r\n\r\n\x1a', b'\n', b'\r\n\x1a\x1a', b'\r\n  \r\n',
+                b'\r\n\x1a30000 REM behind the end-of-file byte\r\n\x1a']
+FILE_LEADS = [b'', b'', b'', b'\r\n', b'  \r\n', b'\r\n\r\n']
+
+
+def text_file(rng, nums, tag0):
+    """A program text file as an editor would write it (not SAVE): numbered lines in any order, repeats of
+    existing / earlier numbers (replace), lines holding only a number (delete; only numbers present at that
+    point, a missing one would abort the MERGE with Undefined line number), blank and blank-only lines,
+    CR / LF / CRLF line ends, with or without 1A, last line with or without a line end.
+    Returns (file bytes, [[n, text or None, tagged, tag], ...] in file order)."""
+    present = set(nums)
+    items = []
+    for j in range(rng.choice([1, 2, 3, 4, 6, 9])):
+        k = rng.random()
+        if k < 0.15 and present:
+            n = rng.choice(sorted(present))
+            present.discard(n)
+            items.append([n, None, False, 0])
+            continue
+        if k < 0.4 and present:
+            n = rng.choice(sorted(present))
+        elif k < 0.7:
+            n = probe_line(rng, sorted(present), rng.choice(PROBES))
+        else:
+            n = rng.choice([rng.randrange(65530), rng.choice(BOUNDARY_LINES)])
+        tag = tag0 + j
+        text = b'PRINT "T%d":END' % tag
+        if rng.random() < 0.5:
+            piece = gen_piece(rng)
+            if len(piece) <= 60 and piece.strip(b' '):
+                text += b':' + piece
+        present.add(n)
+        items.append([n, text.decode('latin-1'), True, tag])
+    data = rng.choice(FILE_LEADS)
+    for j, it in enumerate(items):
+        data += (b'%d' % it[0]) + (b'' if it[1] is None else b' ' + it[1].encode('latin-1'))
+        if j < len(items) - 1:
+            data += rng.choice(FILE_SEPARATORS)
+    data += rng.choice(FILE_ENDINGS)
+    return data, items
+
+
 def failing_cmd(rng, nums):
     """An editing command that must be refused whatever the program is."""
     missing = next(n for n in (rng.randrange(65530), 7, 65529, 65528, 3, 1, 0, 2) if n not in nums)
@@ -157,7 +204,8 @@ def failing_cmd(rng, nums):
 
 def gen_history(rng, nops, profile):
     """List of ops: ['s', n, text, tagged, tag] | ['b', n] | ['d', a|None, b|None] | ['n'] |
-    ['r', new|None, old|None, step|None] (RENUM)"""
+    ['r', new|None, old|None, step|None] (RENUM) | ['f', cmd] (must fail) | ['p', kind] (aimed line entry) |
+    ['m', 'merge'|'load', file bytes, [[n, text|None, tagged, tag], ...]] (text file written by the harness)"""
     pool = sorted(set(rng.sample(BOUNDARY_LINES, rng.choice([2, 4, 8])) +
                       [rng.randrange(65530) for _ in range(rng.choice([2, 6, 20, 40]))]))
     ops = []
@@ -178,6 +226,13 @@ def gen_history(rng, nops, profile):
                 text, tagged = gen_text(rng, tag)
                 ops.append(['s', n, text, tagged, tag])
                 pool.append(n)
+                continue
+            k = rng.random()
+        if profile == 'merge':
+            if k < 0.2:
+                ops.append(['m', 'auto'])
+                if rng.random() < 0.4:
+                    ops.append(['p', rng.choice(PROBES)])
                 continue
             k = rng.random()
         if profile == 'renum':
@@ -217,6 +272,9 @@ def gen_history(rng, nops, profile):
                 ops.append(['d', None, b])
         elif k < 0.975 or profile == 'smallmem':
             ops.append(['n'])
+        elif k < 0.98 and profile == 'mixed':
+            # MERGE / LOAD of a text file written by the harness (chosen when it is reached)
+            ops.append(['m', 'auto'])
         elif k < 0.99:
             # RENUM; the arguments are chosen when the operation is reached (they depend on the lines present
             # at that point) and written back into the op, so that a replay has the concrete numbers
@@ -285,7 +343,7 @@ class History(object):
     def __init__(self, ctx, scratch, ops, max_memory, profile, sample_every=25, with_load=True):
         self.ctx, self.scratch, self.ops, self.max_memory, self.profile = ctx, scratch, ops, max_memory, profile
         self.sample_every = sample_every
-        self.with_load = with_load
+        self.with_load = with_load or any(o[0] == 'm' for o in ops)
         self.model_ops = []
         self.impl_steps = []
         self.failed = None
@@ -381,6 +439,9 @@ class History(object):
         if kind == 'f':
             self.failing(i, op)
             return
+        if kind == 'm':
+            self.mergefile(i, op)
+            return
         # --- expected effect from the property statement
         may_oom = False
         if kind == 's':
@@ -452,6 +513,59 @@ class History(object):
             return
         self.ref = ref = expref
         self.observe(i, status)
+
+    def mergefile(self, i, op):
+        """MERGE / LOAD of a text file written by the harness: the program afterwards is what typing the file's
+        lines in file order gives (LOAD: on an empty program)."""
+        ctx, ref = self.ctx, self.ref
+        if self.tmp is None:
+            ctx.count('mergefile:skipped-no-drive')
+            return
+        if op[1] == 'auto':
+            data, items = text_file(ctx.rng, sorted(ref), 800000 + 100 * i)
+            op[:] = ['m', ctx.rng.choice(['merge', 'merge', 'load']), data, items]
+        mode, data, items = op[1], op[2], op[3]
+        new = {} if mode == 'load' else dict(ref)
+        for n, text, tagged, tag in items:
+            if text is None:
+                if n not in new:
+                    ctx.count('mergefile:skipped-bare-missing')
+                    return
+                del new[n]
+            else:
+                info = self.scratch.line(n, text.encode('latin-1'))
+                if info is None:
+                    ctx.count('mergefile:skipped-not-storable')
+                    return
+                new[n] = (info[0], info[1], tagged, tag, ctx_wf(ctx, info[0]))
+        if self.cs + len(serialise(new, self.cs)[0]) + 600 > self.stack:
+            ctx.count('mergefile:skipped-near-memory-limit')
+            return
+        name = 'M%d' % (i % 7)
+        with open(os.path.join(self.tmp, name + '.BAS'), 'wb') as f:
+            f.write(data)
+        cmd = b'%s "%s"' % (mode.upper().encode(), name.encode())
+        try:
+            out = self.s.execute(cmd)
+        except Exception as e:  # noqa
+            self.fail('exception:mergefile:%s' % type(e).__name__, i, '%r of %r raised %r' % (cmd, data[:200], e))
+            return
+        ctx.case((self.profile, i, cmd, data))
+        ctx.count('mergefile:%s' % mode)
+        ctx.count('mergefile:%s' % ('blank-line-inside' if any(s in data.rstrip(b'\r\n\x1a \t') for s in
+                                    (b'\r\n\r\n', b'\r\r', b'\n\n', b'\r\n \r\n', b'\r\n   \r\n', b'\r\n\t\r\n', b'\r\n\n'))
+                                    else 'no-blank-line-inside'))
+        if out != b'':
+            self.fail('mergefile:message', i, '%r of the file %r printed %r' % (cmd, data[:300], out[:100]))
+            return
+        self.ref = new
+        self.model_ops.append('l:%s' % (','.join('%d.%s' % (n, hexb(new[n][0])) for n in sorted(new)) or '-'))
+        if not all(v[4] for v in new.values()):
+            ctx.count('mergefile:nonwf-line')
+        self.observe(i, 'ok')
+        if self.failed and self.failed[1] == i:
+            # make the report say which file it was
+            self.ctx.failures[-1]['what'] += ' [after %r of the text file %r]' % (cmd, data[:300])
 
     def failing(self, i, op):
         """A command that must be refused: an error message, and the program exactly as before."""
@@ -952,10 +1066,10 @@ def run(ctx):
                                   sample_every=150, with_load=True))
             ctx.count('history:refused-then-edit')
         if ctx.quick:
-            plan = [('mixed', None, 60, 24), ('renum', None, 60, 8), ('mixed', None, 300, 2), ('desc', None, 120, 2),
+            plan = [('mixed', None, 60, 21), ('merge', None, 40, 6), ('renum', None, 60, 8), ('mixed', None, 300, 2), ('desc', None, 120, 2),
                     ('smallmem', 7000, 120, 4), ('smallmem', 5600, 60, 3)]
         else:
-            plan = [('mixed', None, 60, 400), ('renum', None, 80, 150), ('mixed', None, 300, 40), ('mixed', None, 2000, 4), ('desc', None, 300, 12),
+            plan = [('mixed', None, 60, 400), ('merge', None, 60, 150), ('renum', None, 80, 150), ('mixed', None, 300, 40), ('mixed', None, 2000, 4), ('desc', None, 300, 12),
                     ('desc', None, 400, 3), ('smallmem', 7000, 300, 30), ('smallmem', 5600, 100, 30),
                     ('smallmem', 12000, 500, 6)]
         for profile, mm, nops, count in plan:
@@ -991,7 +1105,7 @@ def replay(ctx, payload):
     case = payload.get('case') or {}
     if 'ops' not in case:
         return None
-    ops = [[o[0]] + [x.encode('latin-1') if isinstance(x, str) and ((j == 1 and o[0] == 's') or (o[0] == 'f' and x != 'auto')) else x
+    ops = [[o[0]] + [x.encode('latin-1') if isinstance(x, str) and ((j == 1 and o[0] in ('s', 'm')) or (o[0] == 'f' and x != 'auto')) else x
                      for j, x in enumerate(o[1:])] for o in case['ops']]
     sub = _Sub(ctx)
     scratch = Scratch()
